@@ -10,7 +10,7 @@ pub fn def() -> PropDef {
 	PropDef {
 		id: "C16",
 		level: "fault_enumeration",
-		rule: "generated histories over all column kinds (block regimes of C02); for each history EVERY file-operation index n of every pipeline op (P/F/E/C/R/Drain/Reopen) is enumerated up to a per-history cap (then sampled): the op is run with the library's fault injector failing the n-th file operation and every later one. Oracle: the failing call returns an error (for Reopen: the open following the silent drop fails) - an op that completes Ok although one of its file operations failed is a violation; no panic, also not in the drop that follows with the fault still present; reads issued between the failure and the drop return the model of ALL committed transactions; after the fault is cleared Db::open of the same directory succeeds and observes a prefix p with synced <= p <= committed; the recovered database accepts commits, drains and reopens. Non-trivial = the fault hit after the op had already performed >=1 file operation (n >= 1); distinct = distinct (history, op, n) triples. Sub-run eio-threads (pdbv_io binary, real worker threads): interposed write / fdatasync / fsync / msync / ftruncate / unlink / mmap calls on the database's files succeed a generated number of times, then fail with EIO on every thread; oracle: no commit accepted after a refusal, a refusal at the latest 8 probe commits after the first failed call, reads = accepted commits, drop returns, no panic on any thread, restart = prefix of the accepted commits; non-trivial there = >=1 call failed",
+		rule: "generated histories over all column kinds (block regimes of C02); for each history EVERY file-operation index n of every pipeline op (P/F/E/C/R/Drain/Reopen) is enumerated up to a per-history cap (then sampled): the op is run with the library's fault injector failing the n-th file operation and every later one. Oracle: the failing call returns an error (for Reopen: the open following the silent drop fails) - an op that completes Ok although one of its file operations failed is a violation; no panic, also not in the drop that follows with the fault still present; reads issued between the failure and the drop return the model of ALL committed transactions; after the fault is cleared Db::open of the same directory succeeds and observes a prefix p with synced <= p <= committed; the recovered database accepts commits, drains and reopens. Non-trivial = the fault hit after the op had already performed >=1 file operation (n >= 1); distinct = distinct (history, op, n) triples. Sub-run eio-threads (pdbv_io binary, real worker threads): interposed write / fdatasync / fsync / msync / ftruncate / unlink / mmap calls on the database's files succeed a generated number of times, then fail with EIO on every thread; oracle: no commit accepted after a refusal, a refusal at the latest 12 probe commits (250 ms apart) after the first failed call, reads = accepted commits, drop returns, no panic on any thread, restart = prefix of the accepted commits; non-trivial there = >=1 call failed",
 		assumptions: &[
 			"fault = the repository's thread-local injector (every try_io! site), persisting until restart; reads between failure and drop are issued with the injector paused because memory-mapped reads are not file operations of the pipeline",
 			"stepping part: the failing call is the pipeline step itself. Threaded part (shuttle engine, real worker loops): all tasks share one OS thread, so the thread-local injector fails every file operation of every worker from the n-th on; commits must be refused with a background error from then on, reads stay correct, shutdown terminates, restart recovers a per-client prefix of the accepted commits",
@@ -297,15 +297,15 @@ pub fn run_eio_case(case: &EioCase, dir: &Path) -> CaseResult {
 		// fails from the first failure on, so no accepted commit can get anywhere)
 		if iotrack::EIO_FAILED_CALLS.load(std::sync::atomic::Ordering::SeqCst) > 0 && refused_at.is_none() {
 			let mut refused = false;
-			for probe in sc.ops.iter().filter(|o| matches!(o, Op::Commit(_))).cycle().take(8) {
+			for probe in sc.ops.iter().filter(|o| matches!(o, Op::Commit(_))).cycle().take(12) {
 				if let StepOut::Faulted(_) = it.step(probe)? {
 					refused = true;
 					break
 				}
-				std::thread::sleep(std::time::Duration::from_millis(150));
+				std::thread::sleep(std::time::Duration::from_millis(250));
 			}
 			if !refused {
-				fail!("io-error-never-reported", "file calls of the workers fail with EIO (from the {}th on) but 8 further commits, 150 ms apart, were all accepted", case.fail_after)
+				fail!("io-error-never-reported", "file calls of the workers fail with EIO (from the {}th on) but 12 further commits, 250 ms apart, were all accepted", case.fail_after)
 			}
 			refused_at = Some(i);
 		}
